@@ -91,6 +91,32 @@ pub fn has_ree(t: &DataType) -> bool {
         _ => false,
     }
 }
+pub fn has_dense_union(t: &DataType) -> bool {
+    use DataType::*;
+    match t {
+        Union(_, arrow_schema::UnionMode::Dense) => true,
+        Union(fs, _) => fs.iter().any(|(_, f)| has_dense_union(f.data_type())),
+        Dictionary(_, v) => has_dense_union(v),
+        RunEndEncoded(_, v) => has_dense_union(v.data_type()),
+        List(f) | LargeList(f) | ListView(f) | LargeListView(f) | FixedSizeList(f, _) | Map(f, _) => has_dense_union(f.data_type()),
+        Struct(fs) => fs.iter().any(|f| has_dense_union(f.data_type())),
+        _ => false,
+    }
+}
+pub fn schema_has_dense_union(s: &Schema) -> bool {
+    s.fields().iter().any(|f| has_dense_union(f.data_type()))
+}
+/// some column (or struct child) is a zero-length run-end array over non-empty runs (a zero-length slice)
+pub fn has_empty_ree_slice(b: &RecordBatch) -> bool {
+    fn go(d: &ArrayData) -> bool {
+        match d.data_type() {
+            DataType::RunEndEncoded(_, _) => d.len() == 0 && !d.child_data()[0].is_empty(),
+            DataType::Struct(_) => d.child_data().iter().any(go),
+            _ => false,
+        }
+    }
+    b.columns().iter().any(|c| go(&c.to_data()))
+}
 pub fn schema_has_ree(s: &Schema) -> bool {
     s.fields().iter().any(|f| has_ree(f.data_type()))
 }
@@ -195,10 +221,6 @@ pub fn attached_json(b: &RecordBatch) -> Value {
 
 pub fn cols_json(b: &RecordBatch) -> Value {
     Value::Array(b.columns().iter().map(|c| tok::rows_json(c.as_ref())).collect())
-}
-
-pub fn batch_json(b: &RecordBatch) -> Value {
-    json!({"n": b.num_rows(), "cols": cols_json(b)})
 }
 
 // --------------------------------------------------------------------------------------- messages
